@@ -329,6 +329,23 @@ def _run_pool(sh, ctx, gc, KmerSpec):
 			ks = KmerSpec(spec[0], spec[1])
 			ctx.seen('kmerspecs_used_in_one_process', f'{spec[0]}/{spec[1].decode()}')
 			files, exps = make_files(ctx, rng, n, skew=skew, tag=f'r{r}_', spec=spec)
+			# a file named through a symlinked directory and '..': the operating system resolves 'lnk/../x.fa' to the PARENT OF THE LINK'S
+			# TARGET, a textual clean-up of the path names another file (a decoy with other content sits there)
+			if r % 4 == 1 and len(files) >= 2:
+				from gambit.seq import SequenceFile as _SF2
+				import shutil as _sh2
+				t1 = ctx.workdir / f'r{r}_t1'; (t1 / 't2').mkdir(parents=True, exist_ok=True)
+				lnk = ctx.workdir / f'r{r}_lnk'
+				if not lnk.exists():
+					os.symlink(t1 / 't2', lnk)
+				j_ = rng.randrange(len(files))
+				src_ = str(files[j_].path)
+				nm_ = 'dd_' + os.path.basename(src_)
+				_sh2.copy(src_, t1 / nm_)                                   # what 'lnk/../<name>' really is
+				other_ = str(files[(j_ + 1) % len(files)].path)
+				_sh2.copy(other_, ctx.workdir / nm_)                        # what a textual clean-up of the path would name
+				files[j_] = _SF2(os.path.join(str(lnk), '..', nm_), 'fasta', 'auto')
+				ctx.count('runs_with_dotdot_through_symlinked_directory')
 			# files without any sequence record (zero bytes, an empty gzip member, a lone header): legal input whose signature is empty
 			nempty = 0
 			if r % 4 == 2 or rng.random() < 0.15:
@@ -575,7 +592,7 @@ def run_shard(sh, ctx):
 def finalize(merged, tier, seed, inconclusive):
 	c = merged['counters']
 	for n in ['forced_runs', 'orders_delivered_exactly_as_chosen', 'non_identity_orders_delivered', 'pool_runs:none', 'pool_runs:threads', 'pool_runs:processes',
-	          'failures_propagated', 'caller_executor_still_usable', 'failure_runs:processes', 'failure_runs:perm', 'yield_injections', 'successful_calls_after_a_failed_call', 'runs_with_repeated_files', 'runs_with_recordless_files']:
+	          'failures_propagated', 'caller_executor_still_usable', 'failure_runs:processes', 'failure_runs:perm', 'yield_injections', 'successful_calls_after_a_failed_call', 'runs_with_repeated_files', 'runs_with_recordless_files', 'runs_with_dotdot_through_symlinked_directory']:
 		if c.get(n, 0) == 0:
 			inconclusive.append(f'class never observed: {n}')
 	if c.get('pool_orders_observed', 0) and c.get('pool_orders_not_identity', 0) == 0:
